@@ -45,7 +45,9 @@ func (c *Ctx) glyphNameShadowing() {
 	tokens := func(s string) []string {
 		s = actions.ReplaceAllString(s, " ")
 		var out []string
-		for _, w := range strings.FieldsFunc(s, func(r rune) bool { return r == ' ' || r == '\n' || r == '\t' || r == '{' || r == '}' || r == '[' || r == ']' }) {
+		for _, w := range strings.FieldsFunc(s, func(r rune) bool {
+			return r == ' ' || r == '\n' || r == '\t' || r == '{' || r == '}' || r == '[' || r == ']'
+		}) {
 			if w == "" || strings.HasPrefix(w, "/") || strings.HasPrefix(w, "(") || strings.HasPrefix(w, "%") {
 				continue
 			}
